@@ -131,6 +131,7 @@ inductive Actor
   | pollAll (t : Tid) (d : Nat)         -- an idle thread calls `conn.poll_all(d)` (`AsyncResult.ready`: d = 0)
   | run (t : Tid)                       -- thread `t` executes its next line
   | peer (q : Seq) (exc : Bool) (v : Nat)   -- the peer answers an outstanding request
+  | peerDup (q : Seq) (exc : Bool) (v : Nat)   -- the peer repeats the answer it already gave to a request
   | peerEof                             -- the peer closes the stream
   | tick (d : Nat)                      -- time passes
   deriving DecidableEq, Repr
@@ -337,6 +338,7 @@ def step (s : St) : Actor → Option St
              else none
   | .run t => stepRun s t
   | .peer q exc v => if q ∈ s.outstanding ∧ s.eof = false then some (doPeer s q exc v) else none
+  | .peerDup q exc v => if s.answer q = some (exc, v) ∧ s.eof = false then some (doPeer s q exc v) else none
   | .peerEof => if s.eof = false then some { s with eof := true } else none
   | .tick d => some { s with now := s.now + d }
 
